@@ -1,6 +1,7 @@
 import EinoV.Basic.JsonUtil
 import EinoV.Model.C11
 import EinoV.Model.C11Paths
+import EinoV.Model.C11Late
 import EinoV.Expected.C11
 
 /-
@@ -51,6 +52,15 @@ import EinoV.Expected.C11
      "rounds":[{"calls":[{"l","path"}…],"at":[{"l","ctr","seq","order"}…]}…]}
   (`nestLevels` / `modCalls` / `resumeNest` of Model/C11Paths.lean with the Expected resume facts:
    which paths the caller's modifier is called with, and what every level works on afterwards)
+
+  {"k":"late","init":{"ctr","seq"},"tasks":[{"in","ops"}…],          -- one thread per node pipeline + one per closure
+   "srcs":[{"t":tid,"lo":i,"hi":j,"ft":t0,"fk":k0}…],                -- operations lo..hi-1 of thread t are called with the
+                                                                     --   context handed to operation k0 of thread t0
+   "holder":tid,"late":tid,"micro":seed}
+  → {"exclusive":b,"tried":b,"done":b,"agree":b,"ctr":[..],"seq":n}
+  (`runK` with the Expected context facts under `lateGuard`: a forced schedule — everybody but holder and
+   closure runs to the end, the holder stops inside a user function, the closure takes three micro-steps,
+   then everybody finishes — and a pseudo-random one; `exclusive`: never two threads inside)
 
   {"k":"locks","top":bool,"restored":r,"init":{"ctr","seq"},"tasks":[{"in","ops"}…],"micro":seed}
   → {"locks":[mutex id per task],"done":b,"ctr":[..],"seq":n}
@@ -525,8 +535,70 @@ def handleLocks (c : Json) : JE Json := do
     ("done", Json.bool (allDone fin.core)),
     ("ctr", J.mkNats fin.core.shared.ctr), ("seq", (fin.core.shared.seq : Json))]
 
+/-! ### late family: `ProcessState` through a captured handler context -/
+
+/-- run a schedule of `runK` (Expected lock table, `lateGuard`), remembering whether two
+    threads were ever inside at once -/
+def runKTrack (cf : CtxFacts) (srcs : Nat → Nat → CtxSrc) (n : Nat) (sched : List Nat)
+    (acc : Sys St V × Bool) : Sys St V × Bool :=
+  sched.foldl (fun acc t =>
+    let s' := gstepK cf srcs Expected.C11.locks.of (lateGuard srcs) acc.1 t
+    (s', acc.2 && decide (insideCount s' n ≤ 1))) acc
+
+/-- round-robin sweeps over the threads not in `skip` until none of them can move -/
+def sweepsK (cf : CtxFacts) (srcs : Nat → Nat → CtxSrc) (skip : List Nat) :
+    Nat → Nat → Sys St V × Bool → Sys St V × Bool
+  | 0, _, acc => acc
+  | fuel + 1, n, acc =>
+    let live := (List.range n).filter fun t =>
+      !skip.contains t && (!(pending acc.1.core t).isEmpty || inside acc.1 t)
+    if live.isEmpty then acc else sweepsK cf srcs skip fuel n (runKTrack cf srcs n live acc)
+
+/-- step thread `h` until it has read the state inside a user function -/
+def untilLoaded (cf : CtxFacts) (srcs : Nat → Nat → CtxSrc) (n h : Nat) :
+    Nat → Sys St V × Bool → Sys St V × Bool
+  | 0, acc => acc
+  | fuel + 1, acc =>
+    match acc.1.phase h with
+    | .loaded _ => acc
+    | _ => untilLoaded cf srcs n h fuel (runKTrack cf srcs n [h] acc)
+
+def handleLate (c : Json) : JE Json := do
+  let s0 ← parseSt (← J.field c "init")
+  let ths ← (← J.arr c "tasks").mapM parseTask
+  let n := ths.length
+  let spans ← (← J.arr c "srcs").mapM fun sj => do
+    pure ((← J.nat sj "t"), (← J.nat sj "lo"), (← J.nat sj "hi"), (← J.nat sj "ft"), (← J.nat sj "fk"))
+  let srcs : Nat → Nat → CtxSrc := fun t k =>
+    match spans.find? (fun x => x.1 == t && x.2.1 ≤ k && k < x.2.2.1) with
+    | some x => .handed x.2.2.2.1 x.2.2.2.2
+    | none => .own
+  let holder ← J.nat c "holder"
+  let late ← J.nat c "late"
+  let cf := Expected.C11.ctxFacts
+  let ops := (ths.map (·.1.length)).foldl (· + ·) 0
+  let fuel := 4 * ops + 4
+  let a0 : Sys St V × Bool := (init s0 ths, true)
+  -- forced: the others finish, the holder stops inside, the closure tries, everybody finishes
+  let a1 := sweepsK cf srcs [holder, late] fuel n a0
+  let a2 := untilLoaded cf srcs n holder fuel a1
+  let held := match a2.1.phase holder with | .loaded _ => true | _ => false
+  let tried := held && !(pending a2.1.core late).isEmpty && lateGuard srcs a2.1 late
+  let a3 := runKTrack cf srcs n [late, late, late] a2
+  let a4 := sweepsK cf srcs [] fuel n a3
+  -- pseudo-random
+  let b1 := runKTrack cf srcs n (randSched (3 * ops) (J.natD c "micro" 1) (max n 1)) a0
+  let b2 := sweepsK cf srcs [] fuel n b1
+  let fin := a4.1.core.shared
+  pure <| Json.mkObj [
+    ("exclusive", Json.bool (a4.2 && b2.2)), ("tried", Json.bool tried),
+    ("done", Json.bool (allDone a4.1.core && allDone b2.1.core)),
+    ("agree", Json.bool (fin.ctr == b2.1.core.shared.ctr && fin.seq == b2.1.core.shared.seq)),
+    ("ctr", J.mkNats fin.ctr), ("seq", (fin.seq : Json))]
+
 def handle (c : Json) : JE Json := do
   match (← J.str c "k") with
+  | "late" => handleLate c
   | "run" => handleRun c
   | "alloc" => handleAlloc c
   | "chain" => handleChain c
